@@ -151,6 +151,73 @@ fn verdict(r: &Result<(), BuildError>) -> String
     }
 }
 
+/*  second corpus: two INDEPENDENT rules whose left-over targets hold identical bytes; rule a's command never writes its target.
+    Whatever the other rule does to the shared cache, a.txt must be reported as not generated under every schedule (C04, C06). */
+const RULES_TWINS : &str = "\
+a.txt
+:
+in.txt
+:
+mycat
+in.txt
+misnamed.txt
+:
+
+b.txt
+:
+in.txt
+:
+mycat
+in.txt
+b.txt
+:
+";
+#[test]
+fn verif_sched_twins()
+{
+    std::panic::set_hook(Box::new(|_| {}));
+    let points : [(&str, &str); 4] = [("rename", "a.txt"), ("rename", "b.txt"), ("open", "a.txt"), ("open", "b.txt")];
+    let (mut c04, mut b04, mut c05, mut b05, mut c06, mut b06) = (0usize, 0usize, 0usize, 0usize, 0usize, 0usize);
+    let mut reference : Option<(String, Vec<Option<String>>, String)> = None;
+    for code in 0..(1usize << points.len())
+    {
+        let delays : Vec<(&'static str, &'static str, u64)> = points.iter().enumerate().map(|(i, (o, s))| (*o, *s, if (code >> i) & 1 == 1 { DELAY_MS } else { 0 })).collect();
+        let label = format!("twin left-over targets, delays {:?}", delays.iter().map(|d| d.2).collect::<Vec<u64>>());
+        let mut system = FakeSystem::new(10);
+        write_str_to_file(&mut system, "build.rules", RULES_TWINS).unwrap();
+        write_str_to_file(&mut system, "in.txt", "input\n").unwrap();
+        write_str_to_file(&mut system, "a.txt", "left over\n").unwrap();
+        write_str_to_file(&mut system, "b.txt", "left over\n").unwrap();
+        system.time_passes(1);
+        let ds = DelaySystem { inner: system.clone(), delays: Arc::new(delays) };
+        let (tx, rx) = mpsc::channel();
+        std::thread::spawn(move || { let r = catch_unwind(AssertUnwindSafe(|| build(ds, &mut EmptyPrinter::new(), params()))); let _ = tx.send(r); });
+        c05 += 1;
+        let result = match rx.recv_timeout(Duration::from_secs(20))
+        {
+            Err(_) => { b05 += 1; println!("WITNESS B-sched-C05 :: {} :: build() did not return within 20 s", label); continue; },
+            Ok(Err(_)) => { b05 += 1; println!("WITNESS B-sched-C05 :: {} :: build() panicked", label); continue; },
+            Ok(Ok(r)) => r,
+        };
+        let v = verdict(&result);
+        let finals : Vec<Option<String>> = ["a.txt", "b.txt"].iter().map(|t| read(&system, t)).collect();
+        c04 += 1;
+        if !v.contains("a.txt") || result.is_ok() || finals[1] != Some("input\n".to_string())
+        {
+            b04 += 1; if b04 <= 4 { println!("WITNESS B-sched-C04 :: {} :: verdict {} files {:?}: a.txt is not generated by its command and must be reported; b.txt must be built", label, v, finals); }
+        }
+        c06 += 1;
+        match &reference
+        {
+            None => reference = Some((v, finals, label.clone())),
+            Some((rv, rf, rl)) => if *rv != v || *rf != finals { b06 += 1; if b06 <= 4 { println!("WITNESS B-sched-C06 :: {} :: outcome {} {:?} differs from {} {:?} under [{}]", label, v, finals, rv, rf, rl); } },
+        }
+    }
+    println!("SUMMARY B-sched-twins-C04 cases={} disagreements={}", c04, b04);
+    println!("SUMMARY B-sched-twins-C05 cases={} disagreements={}", c05, b05);
+    println!("SUMMARY B-sched-twins-C06 cases={} disagreements={}", c06, b06);
+}
+
 #[test]
 fn verif_sched_build()
 {
